@@ -101,10 +101,11 @@ public:
 
       if (_time_zone == Timezone::LocalTime)
       {
-        // If localtime is used, we will recalculate every 15 minutes. This approach accounts for
-        // DST changes and simplifies handling transitions around midnight. Recalculating every 15
-        // minutes ensures coverage for all possible timezones without additional computations.
-        _next_recalculation_timestamp = _next_quarter_hour_timestamp(timestamp);
+        // If localtime is used, we will recalculate every minute. This approach accounts for
+        // DST changes and simplifies handling transitions around midnight. UTC offsets are multiples
+        // of 15 minutes, but DST changes are not always on a quarter hour (e.g. 00:01 local time in
+        // America/St_Johns until 2011), so recalculating every 15 minutes is not enough.
+        _next_recalculation_timestamp = ((timestamp / 60) * 60) + 60;
       }
       else if (_time_zone == Timezone::GmtTime)
       {
